@@ -4,7 +4,9 @@ CONSTANTS
   MaxHops = 4
   MaxReq = 8
   LimitMax = 12
-  MaxDiscards = 2
+  MaxDiscards = 3
+  Layouts = {"plain", "rev", "dup"}
+  OptHops = 4
   MaxScript = 6
   Deviations = {}
 CONSTRAINT HWM
